@@ -17,6 +17,9 @@ Notation m_keys := (m_keys T).
 Notation wf := (wf T).
 Notation has := (has T).
 Notation rset := (rset T).
+Notation canonical_order := (canonical_order T).
+Notation target := (target T).
+Notation observer := (observer T).
 
 (* ---- what the reference functions mean, in terms of membership *)
 Lemma s_mem_In : forall x (A : rset), s_mem T eqb x A = true <-> In x A.
@@ -367,21 +370,6 @@ Qed.
    orders (any permutation would do, see [valid_order_complete]) no step answers BadOrder.  The
    hypothesis of [history_refines] is therefore about the runtime keeping to the language
    specification, not a restriction on histories. *)
-Definition canonical_order (st : store T) (o : op T) : op T :=
-  match o with
-  | OAddAll _ i j _ => OAddAll T i j (m_keys (st j))
-  | ORemoveAll _ i j _ => ORemoveAll T i j (m_keys (st j))
-  | OPop _ i _ => OPop T i (m_keys (st i))
-  | OIntersect _ i js _ =>
-    OIntersect T i js (match intersect_operand T (map st js) with Ok m => m_keys m | _ => [] end)
-  | OIntersects _ i j _ => OIntersects T i j (m_keys (fst (intersects_operands T (st i) (st j))))
-  | OIsSubset _ i j _ => OIsSubset T i j (m_keys (st i))
-  | OEquals _ i j _ => OEquals T i j (m_keys (st i))
-  | OSlice _ i _ => OSlice T i (m_keys (st i))
-  | OAppend _ i vs _ => OAppend T i vs (m_keys (st i))
-  | o' => o'
-  end.
-
 Lemma skipn_In : forall (A : Type) (n : nat) (l : list A) (x : A), In x (skipn n l) -> In x l.
 Proof.
   induction n as [|n IH]; intros l x H; [exact H|]. destruct l as [|a l']; [exact H|]. right. apply IH. exact H.
@@ -499,21 +487,6 @@ Proof.
   - destruct (Keys_spec T eqb eqb_spec keys next) as [l [E _]]. rewrite E. cbn [snd]. discriminate.
   - destruct (Values_spec T eqb eqb_spec vals next) as [l [E _]]. rewrite E. cbn [snd]. discriminate.
 Qed.
-
-(* the variable an operation may assign: every other variable keeps its value *)
-Definition target (o : op T) : nat :=
-  match o with
-  | ONew _ i _ | ONewSize _ i _ | ONil _ i | OAdd _ i _ | OAddAll _ i _ _ | ORemove _ i _ | ORemoveAll _ i _ _
-  | OPop _ i _ | OClear _ i | OClone _ i _ | OIntersect _ i _ _ | ORange _ i _ | OKeys _ i _ | OValues _ i _
-  | OHas _ i _ | OHasAll _ i _ | OHasAny _ i _ | OLen _ i | OIsEmpty _ i | OIntersects _ i _ _
-  | OIsSubset _ i _ _ | OEquals _ i _ _ | OSlice _ i _ | OAppend _ i _ _ => i
-  end.
-Definition observer (o : op T) : bool :=
-  match o with
-  | OHas _ _ _ | OHasAll _ _ _ | OHasAny _ _ _ | OLen _ _ | OIsEmpty _ _ | OIntersects _ _ _ _
-  | OIsSubset _ _ _ _ | OEquals _ _ _ _ | OSlice _ _ _ | OAppend _ _ _ _ => true
-  | _ => false
-  end.
 
 Theorem step_frame : forall st next o k,
   (k <> target o \/ observer o = true) -> fst (step T eqb zero st next o) k = st k.
